@@ -692,7 +692,8 @@ func loadInlineObjectFromFile(
 
 	cachedView, cacheExists := scope.Tx.CachedViews.Load(fileInfo.IdentifiedPath())
 
-	if cacheExists {
+	// A view that has been loaded for reading only keeps no handler, in which case the file is opened here.
+	if cacheExists && cachedView.FileInfo.Handler != nil {
 		fp = cachedView.FileInfo.Handler.File()
 	} else {
 		h, e := scope.Tx.FileContainer.CreateHandlerForRead(ctx, fileInfo.Path, scope.Tx.WaitTimeout, scope.Tx.RetryDelay)
